@@ -7,7 +7,7 @@ use crate::model::adeval::*;
 use crate::util::*;
 use num_traits::{Pow, Signed};
 use proptest::prelude::*;
-use rateslib::dual::{Dual, Dual2, Gradient1, MathFuncs, Vars};
+use rateslib::dual::{Dual, Dual2, Gradient1, Gradient2, MathFuncs, Vars};
 use serde::{Deserialize, Serialize};
 
 /// The pool of variable names. It contains two pairs that differ in letter case only (a/A, b/B):
@@ -100,6 +100,27 @@ impl Program {
     }
 }
 
+/// the same number with its derivative arrays stored back to front in memory
+pub trait RevMem {
+    fn reversed_memory(&self) -> Self;
+}
+impl RevMem for Dual {
+    fn reversed_memory(&self) -> Self {
+        let d1: Vec<f64> = self.dual().iter().rev().cloned().collect();
+        Dual::clone_from(self, self.real(), ndarray::Array1::from_vec(d1).slice_move(ndarray::s![..;-1]))
+    }
+}
+impl RevMem for Dual2 {
+    fn reversed_memory(&self) -> Self {
+        let d1: Vec<f64> = self.dual().iter().rev().cloned().collect();
+        let n = d1.len();
+        let d2: Vec<f64> = self.dual2().iter().cloned().collect::<Vec<_>>().into_iter().rev().collect();
+        let a1 = ndarray::Array1::from_vec(d1).slice_move(ndarray::s![..;-1]);
+        let a2 = ndarray::Array2::from_shape_vec((n, n), d2).expect("shape").slice_move(ndarray::s![..;-1, ..;-1]);
+        Dual2::clone_from(self, self.real(), a1, a2)
+    }
+}
+
 pub enum Val<T> {
     F(f64),
     D(T),
@@ -127,7 +148,12 @@ macro_rules! interpreter {
                         let (names, coeffs) = p.leaf_layout(i);
                         match &p.tags[i] {
                             Tagging::Own => <$T>::new(p.x[i].0, names),
-                            Tagging::Padded { .. } => make_padded(p.x[i].0, names, coeffs),
+                            // (padded leaves with the top bit of `pos` set hold their derivative arrays in
+                            // reversed memory order - negative strides - as clone_from accepts them)
+                            Tagging::Padded { pos, .. } => {
+                                let d: $T = make_padded(p.x[i].0, names, coeffs);
+                                if pos & 0x80 != 0 { d.reversed_memory() } else { d }
+                            }
                             Tagging::Master => <$T>::new_from(&master, p.x[i].0, names),
                         }
                     })
